@@ -107,6 +107,20 @@ class CallMixin:
             yield from self.call_super(e, st)
             return
         hinted = text in self.contract.calls or text in self.reg.global_calls
+        # ---- instantiation of a class defined inside this function
+        if isinstance(f, ast.Name) and ("$localcls:" + f.id) in st.ghost and not hinted:
+            for st2, vs, x in self.ev_list(list(e.args), st):
+                if x is not None:
+                    yield st2, None, x
+                    continue
+                o = fresh_v("new_" + f.id)
+                st2.assume(z3.Not(st2.heap.sel("$alloc", o)))
+                st2.assume(z3.And(V.is_obj(o), V.oid(o) > 0))
+                self.assume_closed(st2, o)
+                st2.heap.store("$alloc", o, z3.BoolVal(True))
+                st2.assume(smt.typeof(o) == st2.ghost["$localcls:" + f.id])
+                yield st2, o, None
+            return
         # ---- builtins by name
         if isinstance(f, ast.Name) and f.id not in st.locals and not hinted:
             h = getattr(self, "bi_" + f.id, None)
@@ -497,6 +511,9 @@ class CallMixin:
         envn.params = set(names)
         envn.callsite = True
         for p in c.post:
+            st.assume(envn.formula(p))
+        # facts a caller may use that follow from a proved postcondition plus a definitional axiom instance
+        for p in c.labels.get("caller_post", []):
             st.assume(envn.formula(p))
         if c.raw_post:
             for _l, g in c.raw_post(envn):
